@@ -36,25 +36,25 @@ CHECKS = {
     },
     "C01": {
         "level": "exploration",
-        "technique": "completeness monitor: requests whose validity is established independently (reference Poseidon, shadow Merkle model, rln.wasm) driven through the four proving entry points; every output checked by all verification calls and decoded by the independent codec",
+        "technique": "completeness monitor: requests whose validity is established independently (reference Poseidon, shadow Merkle model, rln.wasm) driven through the four proving entry points; every output checked by all verification calls and decoded by the independent codec; run on the default, fullmerkletree, Optimal-tree and arkzkey builds",
         "text": "Valid requests are generated over boundary classes of index, limit, message id, secret, external nullifier and signal, with the rate commitment placed through each tree mutator and other leaves set/deleted around; the entry points generate_rln_proof, generate_rln_proof_with_witness, generate_proof_with_witness (fed with the reference generator's witness vector) and prove are used in rotation; each message must carry the independently computed public values and be accepted by verify_rln_proof, verify_with_roots (root alone and among decoys) and verify. Sampled by boundary classes (about 0.5 s per proof).",
         "note": "Trusted: validity oracle (reference Poseidon, model, rln.wasm), Groth16 completeness. The tree/model agreement is a precondition decided by C06/C08.",
     },
     "C02": {
         "level": "exploration",
-        "technique": "mutation monitor over accepted messages: every decoded field, signal, declared length, all 1024 proof bits, verifier tree and root sets are modified; verification must never return true; positive controls restore acceptance",
+        "technique": "mutation monitor over accepted messages: every decoded field, signal, declared length, all 1024 proof bits, verifier tree and root sets are modified; verification must never return true; positive controls restore acceptance; run on the default, fullmerkletree, Optimal-tree and arkzkey builds",
         "text": "For accepted messages from different strata every public value is replaced (+-1, 0, p-1, random, another field of the message), the signal is flipped/truncated/extended and its declared length changed with a consistent buffer, every single bit of the proof part is flipped (all 1024 in thorough and for the first message in quick), the verifier's tree is changed (unrelated/far leaf, member leaf overwritten/deleted) and restored (control), and root sets of size 1..8 without the root, near misses, and with it at every position (control) are supplied.",
         "note": "Trusted: Groth16 soundness. Panics count as 'not true' (crash-freedom is C13). Aliases of the same field value are excluded here and decided by C13.",
     },
     "C12": {
         "level": "exploration",
-        "technique": "outcome classifier {Ok+verifies, Ok+fails, Err, panic} over hostile proving requests, with rln.wasm partitioning well-formed requests into satisfiable/unsatisfiable; workload repeated on a build with integer-overflow checks on",
+        "technique": "outcome classifier {Ok+verifies, Ok+fails, Err, panic} over hostile proving requests, with rln.wasm partitioning well-formed requests into satisfiable/unsatisfiable; workload repeated on a build with integer-overflow checks on; run on the default, fullmerkletree, Optimal-tree and arkzkey builds",
         "text": "generate_rln_proof, generate_rln_proof_with_witness and prove (and, for malformed Merkle paths, the typed route: a witness decoded from an independently built JSON form handed to protocol::generate_proof / proof_values_from_witness) are driven with message ids at/above the limit, limits outside the circuit window, positions outside the tree, requests truncated at every length, oversized declared lengths and vector counts, witnesses with wrong path lengths / non-binary directions / trailing bytes, and random bytes; a returned message must verify (raw, carried root, same tree for members), unsatisfiable requests must be errors, and no call may panic - on the ordinary optimised build and on a build with integer-overflow checks on. Known finding: limits above 2^16 outside the circuit window.",
         "note": "Trusted: rln.wasm as the satisfiability oracle. Err on a satisfiable request is not a violation here (C01 decides completeness).",
     },
     "C13": {
         "level": "exploration",
-        "technique": "crash monitor (catch_unwind) + alias monitor over hostile inputs to verify, verify_rln_proof, verify_with_roots (both arguments) and recover_id_secret (both arguments), run on the optimised build and on a build with integer-overflow checks on",
+        "technique": "crash monitor (catch_unwind) + alias monitor over hostile inputs to verify, verify_rln_proof, verify_with_roots (both arguments) and recover_id_secret (both arguments), run on the optimised build and on a build with integer-overflow checks on; run on the default, fullmerkletree, Optimal-tree and arkzkey builds",
         "text": "Every truncation length of a valid verification request, boundary declared signal lengths (incl. values that overflow offsets), field and proof replacement by fills/non-canonical values, compressed-point flag patterns, root lists of every length 0..100, over-long inputs and thousands of random or prefix-preserving byte strings are handed to all entry points; any panic is a violation; each alias v + k*p (k = 1..5) of each public value, alone and in pairs, must not be accepted.",
         "note": "Trusted: catch_unwind sees panics only (aborts are covered by the FFI child-process leg of C11). Trailing bytes after a well-formed request are driven for crash-freedom only.",
     },
